@@ -94,7 +94,7 @@ func c38Family(keyType string) int {
 	return 2
 }
 
-var c38Labels = []string{"", "t1", "t2", "main", "λ-wallet", "a b\"<&>"}
+var c38Labels = []string{"", "t1", "t2", "main", "λ-wallet", "a b\"<&>", "t1_1", "main_1"}
 
 var c38PwPool = [][]byte{[]byte("123456"), []byte("pw"), []byte("passw0rd"), []byte("Passw0rd"), []byte("пароль"),
 	[]byte("a b"), []byte("x"), bytes.Repeat([]byte("z"), 40), {1, 2, 3}, {0xff, 0xfe}}
@@ -529,7 +529,7 @@ func (w *c38World) opNew() {
 		specs = len(c38Specs)
 	}
 	sp := c38Specs[uniform(w.t, specs, "key-spec")]
-	label := c38Labels[uniform(w.t, len(c38Labels), "label")]
+	label := w.renameTarget(c38Labels[uniform(w.t, len(c38Labels), "label")])
 	if w.hasLabel(label) && label != "" && uniform(w.t, 3, "keep-duplicate") != 0 {
 		// a refused NewAccount still pays for the encryption: keep a third of the duplicate labels
 		for _, l := range c38Labels {
@@ -577,6 +577,23 @@ func (w *c38World) opNew() {
 	w.logf("new(%s,%q,%s:%s,pw=%q)=#%d", sp.name, label, kind, scheme.Name(), pw, a.id)
 }
 
+// renameTarget biases label draws towards the state ImportAccount's renaming rule needs: an importable
+// label L and its renamed form L_1 both carried by accounts of the wallet.
+func (w *c38World) renameTarget(label string) string {
+	if uniform(w.t, 2, "toward-rename") != 0 {
+		return label
+	}
+	for _, l := range []string{"t1", "main"} {
+		if !w.hasLabel(l) {
+			return l
+		}
+		if !w.hasLabel(l + "_1") {
+			return l + "_1"
+		}
+	}
+	return label
+}
+
 func (w *c38World) opImport() {
 	var cands []*c38Export
 	for _, e := range w.exports {
@@ -589,16 +606,33 @@ func (w *c38World) opImport() {
 		return
 	}
 	e := cands[uniform(w.t, len(cands), "export")]
+	// prefer an export whose label AND renamed label are taken (the import must then be refused)
+	if uniform(w.t, 4, "prefer-collision") != 0 {
+		for _, c := range cands {
+			if l := c.meta.Label; l != "" && w.hasLabel(l) && w.hasLabel(l+"_1") {
+				e = c
+				break
+			}
+		}
+	}
 	m := e.meta // copy
 	want := m.Label
+	renamedTaken := false
 	if want != "" && w.hasLabel(want) {
 		want += "_1" // documented in ImportAccount: "rename"
+		renamedTaken = w.hasLabel(want)
 	}
 	f := w.armFault()
 	err := w.cli.ImportAccount(&m)
 	w.disarm("ImportAccount", err)
 	ok := err == nil
 	w.class("ImportAccount", ok)
+	if renamedTaken {
+		w.ev.Class("import:renamed-label-also-taken")
+		if ok {
+			w.fail("ImportAccount(%s, label %q) succeeded although both %q and the renamed %q are carried by other accounts: two accounts now share a label", e.origin, e.meta.Label, e.meta.Label, want)
+		}
+	}
 	if !ok {
 		w.logf("%simport(%s,%q)=ERR", f, e.origin, e.meta.Label)
 		return
@@ -834,7 +868,7 @@ func (w *c38World) step() {
 
 func c38Run(t *testing.T, p c38Profile, quick, thorough int) {
 	ev := harn.For("C38").
-		Rule("histories (avg 8 operations after a first NewAccount; 10 in profile 'savefaults', 20 mostly scrypt-free ones in profile 'metadata') on a wallet file with default scrypt parameters: NewAccount (P-256/SM2/Ed25519, profile 'schemes' also P-224/384/521; natural, other valid, or (10%) invalid scheme; label from {\"\",t1,t2,main,λ-wallet,a b\"<&>}; 4% empty password), ImportAccount (metadata exported from another wallet file or from this wallet before a deletion; only addresses the wallet does not hold), DeleteAccount (65% a non-default account with its password, else wrong password / default account / unknown address), SetDefaultAccount, SetLabel, ChangePassword (25% wrong old password; 10% back to the previous one; 10% unchanged), ChangeSigScheme (1/3 invalid), reopen; before a quarter (profile 'savefaults': half) of the saving operations the next save is made to fail (the operation must report it and leave the wallet as it was). Non-trivial = >=2 accounts ever listed, >=1 successful mutation after creation (import, delete, default, label, password, scheme) and a reopen after it; distinct by the operation log (account numbers, not addresses)").
+		Rule("histories (avg 8 operations after a first NewAccount; 10 in profile 'savefaults', 20 mostly scrypt-free ones in profile 'metadata') on a wallet file with default scrypt parameters: NewAccount (P-256/SM2/Ed25519, profile 'schemes' also P-224/384/521; natural, other valid, or (10%) invalid scheme; label from {\"\",t1,t2,main,λ-wallet,a b\"<&>,t1_1,main_1} (the _1 forms are what ImportAccount renames a taken label to); 4% empty password), ImportAccount (metadata exported from another wallet file or from this wallet before a deletion; only addresses the wallet does not hold), DeleteAccount (65% a non-default account with its password, else wrong password / default account / unknown address), SetDefaultAccount, SetLabel, ChangePassword (25% wrong old password; 10% back to the previous one; 10% unchanged), ChangeSigScheme (1/3 invalid), reopen; before a quarter (profile 'savefaults': half) of the saving operations the next save is made to fail (the operation must report it and leave the wallet as it was). Non-trivial = >=2 accounts ever listed, >=1 successful mutation after creation (import, delete, default, label, password, scheme) and a reopen after it; distinct by the operation log (account numbers, not addresses)").
 		Assume("key pairs and salts come from crypto/rand inside NewAccount/EncryptPrivateKey; addresses therefore differ between runs and are never part of a draw or of the case description").
 		Assume("AES-GCM authentication makes decryption with a wrong scrypt key fail; wrong passwords are sampled (2 + the empty one per checked account), not enumerated").
 		Assume("passwords are non-empty byte strings without NUL bytes and shorter than 64 bytes (what a terminal or a command line can deliver): scrypt's PBKDF2-HMAC-SHA256 zero-pads keys to the 64-byte block and hashes longer ones, so p and p||0x00 (and a >64-byte p and sha256(p)) are the same key by construction of HMAC, not by a choice of the wallet")
@@ -910,6 +944,12 @@ func TestC38_LabelsDefaultDelete(t *testing.T) {
 
 func TestC38_ImportExport(t *testing.T) {
 	c38Run(t, c38Profile{name: "import", w: [8]int{8, 30, 22, 6, 8, 8, 2, 16}}, 4, 60)
+}
+
+// labels and imports only: the renaming rule of ImportAccount (label taken -> label_1; that one taken
+// too -> refused) is reached in most histories
+func TestC38_ImportRename(t *testing.T) {
+	c38Run(t, c38Profile{name: "rename", w: [8]int{22, 34, 4, 2, 26, 0, 0, 12}, steps: 10}, 6, 90)
 }
 
 func TestC38_Schemes(t *testing.T) {
